@@ -20,6 +20,56 @@ def run(ctx: common.Ctx):
     c03.run_slots(ctx, ('C19',), ctx.scale(210, 1500), 8)
     probe_ancestor_into_descendant(ctx)
     probe_whole_field_refusals(ctx)
+    probe_mapping_batch_refusals(ctx)
+
+
+def probe_mapping_batch_refusals(ctx: common.Ctx):
+    """meta.update(...) / raw_meta.update(...) with a batch whose k-th value is a node that lives elsewhere: the whole
+    call is refused and no key was written (repaired defect 471ed44: MutableMapping.update assigns key by key)."""
+    import datetime, random
+    from decimal import Decimal
+    from autobean_refactor import models
+    from harness import gen_docs, treewalk
+    texts = ['2000-01-01 open Assets:Foo USD\n    aa: 1\n    bb: "x"\n2000-01-02 close Assets:Foo\n    cc: Assets:Bar\n',
+             '2000-01-01 *\n    aa: 1\n    Assets:A  1 USD\n      pp: 2000-01-01\n    Assets:B\n2000-01-02 close Assets:A\n']
+    for k in range(ctx.scale(30, 200)):
+        r = random.Random(ctx.rng.randrange(1 << 30))
+        text = r.choice(texts)
+        f = gen_docs.parse_ok(text, True)
+        holders = [(p, m) for p, m in treewalk.walk(f) if hasattr(m, 'meta') and hasattr(m, 'raw_meta') and p != 'root']
+        attached = [m for _, m in treewalk.walk(f) if isinstance(m, (models.Account, models.Date, models.NumberExpr))
+                    and m.token_store is f.token_store]
+        p, m = r.choice(holders)
+        raw = r.random() < 0.35
+        plain = [Decimal(7), 'str', None, True, datetime.date(2001, 2, 3)]
+        n = r.choice([2, 3, 4])
+        bad_at = r.randrange(n)
+        keys = r.sample(['aa', 'bb', 'cc', 'pp', 'n1', 'n2', 'n3'], n)
+        if raw:
+            other = [x for _, x in holders if x is not m and len(x.raw_meta)]
+            if not other:
+                continue
+            vals = [models.MetaItem.from_value(key, r.choice(plain), indent='    ') for key in keys]
+            vals[bad_at] = r.choice(other).raw_meta[0]
+        else:
+            vals = [r.choice(plain) for _ in keys]
+            vals[bad_at] = r.choice(attached)
+        pairs = list(zip(keys, vals))
+        arg = dict(pairs) if r.random() < 0.6 else pairs
+        before = (gen_docs.print_model(f), [id(t) for t in f.token_store], treewalk.dump(f))
+        w = {'text': text, 'holder': p, 'raw': raw, 'keys': keys, 'attached_at': bad_at}
+        ctx.count('mapping_batch_refusal_probes')
+        try:
+            (m.raw_meta if raw else m.meta).update(arg)
+        except ValueError:
+            after = (gen_docs.print_model(f), [id(t) for t in f.token_store], treewalk.dump(f))
+            if after != before:
+                ctx.monitor_failure(c03.SIG_ATOMIC, f'{p}.{"raw_meta" if raw else "meta"}.update(batch with an attached node at position '
+                                    f'{bad_at} of {n}) was refused but the document now prints {after[0]!r}', w)
+        except Exception as e:
+            ctx.monitor_failure(c03.SIG_ATOMIC, f'{p}.meta.update(...) raised {type(e).__name__}: {e}', w)
+        else:
+            ctx.monitor_failure(c03.SIG_REUSE, f'{p}.{"raw_meta" if raw else "meta"}.update(batch with an attached node) was accepted', w)
 
 
 def probe_whole_field_refusals(ctx: common.Ctx):
